@@ -61,6 +61,11 @@ pub enum Family {
     /// (radius 5-30 mm, `per_turn` points per turn, half a turn or more), so that
     /// the innermost and outermost point can be exact antipodes
     Loop { radius_mm: u8, per_turn: u8 },
+    /// like `EqualRadius`, but every radius lies 0..=`ulps` representable
+    /// numbers above the common one (what a circle around the beamline gives
+    /// after a Cartesian round trip): minimum, maximum and their midpoint
+    /// differ by rounding only
+    NearEqualRadius { ulps: u8 },
 }
 
 #[derive(Clone, Debug, PartialEq, Serialize, Deserialize)]
@@ -150,6 +155,10 @@ fn points_as_generated(g: &Group) -> Vec<SpacePoint> {
         Family::EqualRadius => {
             let r = 0.11 + 0.07 * unit(s, 3);
             (0..n).map(|i| sp(r, phi0 + 0.02 * i as f64, z0 + 0.003 * i as f64)).collect()
+        }
+        Family::NearEqualRadius { ulps } => {
+            let r = 0.11 + 0.07 * unit(s, 3);
+            (0..n).map(|i| sp(f64::from_bits(r.to_bits() + crate::props::mix(s, i) % (ulps as u64 + 1)), phi0 + 0.02 * i as f64, z0 + 0.003 * i as f64)).collect()
         }
         Family::Vertical => {
             let r = 0.11 + 0.07 * unit(s, 3);
@@ -257,6 +266,7 @@ pub fn family() -> impl Strategy<Value = Family> {
         2 => (-18i8..=-2).prop_map(|exp| Family::NearCollinear { exp }),
         1 => Just(Family::Repeated),
         1 => Just(Family::EqualRadius),
+        1 => (1u8..=3).prop_map(|ulps| Family::NearEqualRadius { ulps }),
         1 => Just(Family::Vertical),
         1 => Just(Family::CircleThroughOrigin),
         1 => (3u8..=12).prop_map(|shift| Family::Dyadic { shift }),
